@@ -356,6 +356,7 @@ func (bs *baseServer) Handshake(transportName string, ctx *types.HttpContext) (*
 
 	bs.clients.Store(id, socket)
 	bs.clientsCount.Add(1)
+	vhook.Yield("server.Handshake.registered")
 
 	var unregistered atomic.Bool
 	unregister := func(...any) {
